@@ -4,6 +4,7 @@ CONSTANTS
   JoinRaceFixed = FALSE
   UrgentClose = TRUE
   JobsLast = TRUE
+  NoPush = {FALSE, TRUE}
 
 INVARIANTS TypeOK C04 C05 C06 C07_Count C08 C26_Safe C26_Exact 
 CHECK_DEADLOCK FALSE
